@@ -137,11 +137,19 @@ func c09IneqSpec(c *sim.Ctx) *ref.Spec {
 	iv := []string{"?<n", "?<=n", "?>n", "?>=n", "?!=n"}[c.Intn(5, "ineqvar")]
 	bound := []interface{}{1.0, 2.0, 1.5, 0.0}[c.Intn(4, "bound")]
 	arm := &ref.Action{Ops: []ref.Op{{Kind: "set", K: iv, V: bound}, {Kind: "del", K: "?v"}, {Kind: "del", K: "?n"}}}
+	if c.Chance(1, 3, "keepn") {
+		// the plain counterpart of the inequality variable is set by the action, too (an
+		// integer): a later message must then satisfy the inequality and equal it
+		arm.Ops[2] = ref.Op{Kind: "set", K: "?n", V: []interface{}{1.0, 2.0, 3.0}[c.Intn(3, "nval")]}
+	}
 	if c.Bool("armfromvalue") {
 		arm.Ops[0] = ref.Op{Kind: "setfrom", K: iv, K2: "?v"}
 		arm.Ops = append([]ref.Op{{Kind: "set", K: iv, V: bound}}, arm.Ops...)
 	}
 	fire := &ref.Action{Ops: []ref.Op{{Kind: "emitb", K: "?n"}, {Kind: "del", K: "?n"}}}
+	if c.Bool("firekeepsn") {
+		fire.Ops = fire.Ops[:1]
+	}
 	return &ref.Spec{Nodes: map[string]*ref.Node{
 		"n0":    {HasBr: true, Type: "message", Branches: []*ref.Branch{{HasPat: true, Pattern: map[string]interface{}{"a": "?v"}, Target: "arm"}, {Target: "n0"}}},
 		"arm":   {Action: arm, HasBr: true, Type: "bindings", Branches: []*ref.Branch{{Target: "armed"}}},
@@ -177,6 +185,32 @@ func c09ShareSpec(c *sim.Ctx) *ref.Spec {
 		s.Nodes["touch"].Action.Ops[1].K = k
 	}
 	return s
+}
+
+// c09ExtSpec: an action of the extended interpreter keeps what the _.match utility
+// returned in its bindings; after the next message a pattern looks into it.
+func c09ExtSpec(c *sim.Ctx) *ref.Spec {
+	k := bsKeys[c.Intn(3, "extkey")]
+	val := []interface{}{1.0, 2.0, "x"}[c.Intn(3, "extval")]
+	store := &ref.Action{Ops: []ref.Op{{Kind: "matchstore", K: k, V: val}}}
+	if c.Bool("storefirst") {
+		store.Ops[0].K2 = "first" // keep only the first answer (an object), not the list
+	}
+	var look interface{} = map[string]interface{}{k: []interface{}{map[string]interface{}{"?x": val}}}
+	if store.Ops[0].K2 == "first" {
+		look = map[string]interface{}{k: map[string]interface{}{"?x": "?q"}}
+	}
+	emit := func(e float64) *ref.Action {
+		return &ref.Action{Ops: []ref.Op{{Kind: "emit", V: map[string]interface{}{"e": e, "to": "x"}}, {Kind: "emitb", K: k}}}
+	}
+	return &ref.Spec{Nodes: map[string]*ref.Node{
+		"n0":   {HasBr: true, Type: "message", Branches: []*ref.Branch{{HasPat: true, Pattern: map[string]interface{}{"a": "?v"}, Target: "q"}, {Target: "n0"}}},
+		"q":    {Action: store, HasBr: true, Type: "bindings", Branches: []*ref.Branch{{Target: "w"}}},
+		"w":    {HasBr: true, Type: "message", Branches: []*ref.Branch{{Target: "look"}}},
+		"look": {HasBr: true, Type: "bindings", Branches: []*ref.Branch{{HasPat: true, Pattern: look, Target: "hit"}, {Target: "miss"}}},
+		"hit":  {Action: emit(1), HasBr: true, Type: "bindings", Branches: []*ref.Branch{{Target: "n0"}}},
+		"miss": {Action: emit(2), HasBr: true, Type: "bindings", Branches: []*ref.Branch{{Target: "n0"}}},
+	}}
 }
 
 func reload(st *core.State) (*core.State, error) {
@@ -221,13 +255,17 @@ func runC09(c *sim.Ctx, t *testing.T) {
 	sim.Install(c)
 	defer sim.Uninstall()
 	var gs *ref.Spec
-	switch c.Intn(7, "speckind") {
+	genExt = false
+	switch c.Intn(8, "speckind") {
 	case 0, 1:
 		gs = genSpec(c, genCfg{failOps: true, permanents: true, guards: true, loops: true, maxNodes: 5})
 	case 2:
 		gs = c09IneqSpec(c)
 	case 3:
 		gs = c09ShareSpec(c)
+	case 7:
+		gs = c09ExtSpec(c)
+		genExt = true
 	default:
 		gs = c09Spec(c)
 	}
